@@ -1744,6 +1744,61 @@ class Walker:
                     return [("val", Const(list(r_) if node.func.attr != "get" else r_), s)]
                 except Exception:
                     pass
+            if isinstance(node.func, ast.Attribute) and node.func.attr in ("isdisjoint", "issubset", "issuperset", "union", "intersection", "difference",
+                                                                               "symmetric_difference") and len(recv) == 1 \
+                    and recv[0].kind == "const" and isinstance(recv[0].value, (set, frozenset, tuple)) and args and all(a.kind == "const" for a in args) and not kws:
+                # (module-level set constants are kept as tuples of their elements)
+                try:
+                    return [("val", Const(getattr(frozenset(recv[0].value), node.func.attr)(*[a.value for a in args])), s)]
+                except TypeError:
+                    pass
+            sub_pat = sub_lam = sub_text = None
+            if self.exact_loops and isinstance(node.func, ast.Attribute) and node.func.attr == "sub" and len(recv) == 1 and recv[0].kind == "const" \
+                    and type(recv[0].value).__name__ == "Pattern" and len(node.args) == 2 and isinstance(node.args[0], ast.Lambda) and not kws \
+                    and len(node.args[0].args.args) == 1 and args[1].kind == "const" and isinstance(args[1].value, str):
+                sub_pat, sub_lam, sub_text = recv[0].value, node.args[0], args[1].value
+            elif self.exact_loops and dotted(node.func) == "re.sub" and 3 <= len(node.args) <= 5 and isinstance(node.args[1], ast.Lambda) \
+                    and len(node.args[1].args.args) == 1 and args[0].kind == "const" and isinstance(args[0].value, str) and args[2].kind == "const" \
+                    and isinstance(args[2].value, str) and all(a.kind == "const" and isinstance(a.value, int) for a in args[3:]) \
+                    and all(k == "flags" and v.kind == "const" for k, v in kws.items()) and (len(args) < 4 or args[3].value == 0):
+                import re as _re2
+
+                try:
+                    sub_pat = _re2.compile(args[0].value, (args[4].value if len(args) > 4 else 0) | (kws["flags"].value if "flags" in kws else 0))
+                    sub_lam, sub_text = node.args[1], args[2].value
+                except Exception:
+                    sub_pat = None
+            if sub_pat is not None:
+                # pattern.sub(lambda m: ..., text) on a known text: the replacement function is evaluated for every match in turn
+                lam = sub_lam
+                par = lam.args.args[0].arg
+                text = sub_text
+                matches = list(sub_pat.finditer(text))
+                if len(matches) <= 32:
+                    states = [("", 0, s)]
+                    outs_ = []
+                    for m_ in matches:
+                        nxt = []
+                        for acc, pos, cur in states:
+                            saved = cur.env.get(par)
+                            cur.env[par] = Const(m_)
+                            for r in self.eval(lam.body, cur):
+                                if r[0] == "raise":
+                                    outs_.append(r)
+                                    continue
+                                st2 = r[2]
+                                if saved is None:
+                                    st2.env.pop(par, None)
+                                else:
+                                    st2.env[par] = saved
+                                if r[1].kind == "const" and isinstance(r[1].value, str):
+                                    nxt.append((acc + text[pos:m_.start()] + r[1].value, m_.end(), st2))
+                                else:
+                                    nxt.append((None, m_.end(), st2))
+                        states = nxt
+                    for acc, pos, cur in states:
+                        outs_.append(("val", Const(acc + text[pos:]) if acc is not None else UNK, cur))
+                    return outs_
             if isinstance(node.func, ast.Attribute) and node.func.attr in ("search", "match", "fullmatch", "sub", "split", "findall") and len(recv) == 1 \
                     and recv[0].kind == "const" and type(recv[0].value).__name__ == "Pattern" and args and all(a.kind == "const" for a in args) and not kws:
                 try:
